@@ -1,5 +1,6 @@
 import PyxModel.Reflexive
 import Proofs.Query
+import Proofs.Meta
 
 /-! helper lemmas for C16 -/
 namespace Pyx.Reflexive
@@ -188,5 +189,37 @@ theorem walk_stable (back : Inst → Option Inst) (set : List Inst) (N : Nat) (f
         | succ d' =>
           exact walk_stable back set N first hinj hbound d' (y :: visited) y inv'
             (by simp only [List.length_cons]; omega) f (by omega)
+
+end Pyx.Reflexive
+
+namespace Pyx.Reflexive
+open Pyx.Meta
+
+/-- C02's invariant makes the partner functions of a one-to-one association injective: two instances with
+    the same partner across the target link are the same instance (the partner's source list is
+    duplicate-free, symmetric and holds at most one element) -/
+theorem tgt_head_injective {a : AssocSpec} {l : ALinks} (hinv : AInv a l) (hone : a.srcMany = false)
+    (x y c : Inst) (hx : (l.tgt x).head? = some c) (hy : (l.tgt y).head? = some c) : x = y := by
+  have hxc : c ∈ l.tgt x := List.mem_of_mem_head? hx
+  have hyc : c ∈ l.tgt y := List.mem_of_mem_head? hy
+  have h1 : x ∈ l.src c := (hinv.1 c x).2 hxc
+  have h2 : y ∈ l.src c := (hinv.1 c y).2 hyc
+  have hlen := hinv.2.2.1 hone c
+  match hl : l.src c, hlen, h1, h2 with
+  | [], _, h1, _ => simp [hl] at h1
+  | [z], _, h1, h2 => simp [hl] at h1 h2; rw [h1, h2]
+  | _ :: _ :: _, hlen, _, _ => simp [hl] at hlen
+
+theorem src_head_injective {a : AssocSpec} {l : ALinks} (hinv : AInv a l) (hone : a.tgtMany = false)
+    (x y c : Inst) (hx : (l.src x).head? = some c) (hy : (l.src y).head? = some c) : x = y := by
+  have hxc : c ∈ l.src x := List.mem_of_mem_head? hx
+  have hyc : c ∈ l.src y := List.mem_of_mem_head? hy
+  have h1 : x ∈ l.tgt c := (hinv.1 x c).1 hxc
+  have h2 : y ∈ l.tgt c := (hinv.1 y c).1 hyc
+  have hlen := hinv.2.2.2 hone c
+  match hl : l.tgt c, hlen, h1, h2 with
+  | [], _, h1, _ => simp [hl] at h1
+  | [z], _, h1, h2 => simp [hl] at h1 h2; rw [h1, h2]
+  | _ :: _ :: _, hlen, _, _ => simp [hl] at hlen
 
 end Pyx.Reflexive
